@@ -559,6 +559,18 @@ type TxnStatus struct {
 	Lock     *Lock
 }
 
+// CheckTxnStatusV is CheckTxnStatus with the request's verify_is_primary flag (set by every current client): when the
+// transaction's lock on the given key names another key as its primary, the key is not the primary - nothing is
+// changed and the lock is returned with a primary-mismatch error, so that the caller can go to the real primary.
+func (s *Store) CheckTxnStatusV(primary []byte, lockTS, callerStartTS, currentTS uint64, rollbackIfNotExist, resolvingPessimistic, forceSyncCommit, verifyIsPrimary bool) (TxnStatus, *Err) {
+	if verifyIsPrimary {
+		if k := s.peek(primary); k.lock != nil && k.lock.StartTS == lockTS && !bytes.Equal(k.lock.Primary, primary) {
+			return TxnStatus{}, &Err{Class: "primary-mismatch", Key: primary, Lock: k.lock}
+		}
+	}
+	return s.CheckTxnStatus(primary, lockTS, callerStartTS, currentTS, rollbackIfNotExist, resolvingPessimistic, forceSyncCommit)
+}
+
 // CheckTxnStatus inspects (and possibly expires or pushes) the primary lock.
 func (s *Store) CheckTxnStatus(primary []byte, lockTS, callerStartTS, currentTS uint64, rollbackIfNotExist, resolvingPessimistic, forceSyncCommit bool) (TxnStatus, *Err) {
 	if callerStartTS != math.MaxUint64 && callerStartTS > s.MaxTS {
